@@ -748,6 +748,11 @@ func (w *c19Walk) stmt(st ast.Stmt) error {
 					p := strings.TrimPrefix(base, w.dst+".")
 					nkey, ok := w.spec.nested[p]
 					if !ok {
+						// a field of an object the copy already owns (cc.httpClient = &client; cc.httpClient.Transport = …):
+						// fine when that object was made for the copy, a write into the original's object otherwise
+						if f, known := x.structs[w.spec.key].byName[p]; known && (f.how == "rebuilt" || f.how == "cloned") && w.pos[p].IsValid() && s.Pos() > w.pos[p] {
+							continue
+						}
 						return fmt.Errorf("%s.Clone: assignment to %s.%s, which the extractor does not track", w.spec.recv, base, lt.Sel.Name)
 					}
 					if _, ok := x.structs[nkey].byName[lt.Sel.Name]; !ok {
@@ -841,11 +846,73 @@ func (x *c19) cloneBodies() (map[string]bool, error) {
 	if err != nil {
 		return nil, err
 	}
-	// ---- Options.Clone, retryOption.Clone, DumpOptions.Clone
-	if _, _, err = x.walkClone(c19CloneSpec{dir: "internal/transport", recv: "Options", key: "Options", goType: "Options",
-		nested: map[string]string{"TLSClientConfig": "TLSConfig"}, nestedType: map[string]string{"TLSClientConfig": "tls.Config"}}); err != nil {
+	// the copy gets a Debugf of its own (initTransport builds it around the copy), after the copy's Transport exists
+	facts["debugfRebound"] = cw.callAt["initTransport"].IsValid() && cw.pos["Transport"].IsValid() && cw.callAt["initTransport"] > cw.pos["Transport"]
+	// the copy's http.Client is pointed at the copy's Transport: `X.Transport = <copy>.Transport` with X the
+	// local that becomes <copy>.httpClient, or <copy>.httpClient itself
+	rebound := false
+	ast.Inspect(cfd.Body, func(n ast.Node) bool {
+		as, ok := n.(*ast.AssignStmt)
+		if !ok || len(as.Lhs) != len(as.Rhs) {
+			return true
+		}
+		for i, l := range as.Lhs {
+			sel, ok := l.(*ast.SelectorExpr)
+			if !ok || sel.Sel.Name != "Transport" {
+				continue
+			}
+			if _, isLocal := sel.X.(*ast.Ident); !isLocal && cw.env.text(sel.X) != cw.dst+".httpClient" {
+				continue
+			}
+			if id, isLocal := sel.X.(*ast.Ident); isLocal && id.Name == cw.dst {
+				continue // <copy>.Transport = … is the Transport field itself
+			}
+			if cw.env.text(as.Rhs[i]) == cw.dst+".Transport" && cw.pos["Transport"].IsValid() && as.Pos() > cw.pos["Transport"] {
+				rebound = true
+			}
+		}
+		return true
+	})
+	facts["httpClientTransportRebound"] = rebound
+
+	// ---- Options.Clone, retryOption.Clone, DumpOptions.Clone, Dumper.Clone
+	ow, ofd, err := x.walkClone(c19CloneSpec{dir: "internal/transport", recv: "Options", key: "Options", goType: "Options",
+		nested: map[string]string{"TLSClientConfig": "TLSConfig"}, nestedType: map[string]string{"TLSClientConfig": "tls.Config"}})
+	if err != nil {
 		return nil, err
 	}
+	dw, dfd, err := x.walkClone(c19CloneSpec{dir: "internal/dump", recv: "Dumper", key: "Dumper", goType: "Dumper"})
+	if err != nil {
+		return nil, err
+	}
+	// the copy's dumper gets a writer goroutine of its own: `go X.Start()` in Options.Clone or Dumper.Clone with X
+	// anything but the ORIGINAL's dumper
+	started := false
+	for _, b := range []struct {
+		w  *c19Walk
+		fd *ast.FuncDecl
+		orig []string
+	}{{ow, ofd, []string{ow.src + ".Dump"}}, {dw, dfd, []string{dw.src}}} {
+		ast.Inspect(b.fd.Body, func(n ast.Node) bool {
+			g, ok := n.(*ast.GoStmt)
+			if !ok {
+				return true
+			}
+			sel, ok := g.Call.Fun.(*ast.SelectorExpr)
+			if !ok || sel.Sel.Name != "Start" {
+				return true
+			}
+			recv := b.w.env.text(sel.X)
+			for _, o := range b.orig {
+				if recv == o {
+					return true
+				}
+			}
+			started = true
+			return true
+		})
+	}
+	facts["dumperStarted"] = started
 	if _, _, err = x.walkClone(c19CloneSpec{dir: "", recv: "retryOption", key: "retryOption", goType: "retryOption"}); err != nil {
 		return nil, err
 	}
